@@ -372,15 +372,18 @@ def run_oracle(pid, header, cases, impl, wd):
 
 # ----------------------------------------------------------------------------- shrinking
 
-def shrink(case, fails, keep=lambda l: False, budget=150):
-    """Greedy line removal. fails(case)->bool re-runs the implementation + oracle."""
+def shrink(case, fails, keep=lambda l: False, budget=150, seconds=None):
+    """Greedy line removal. fails(case)->bool re-runs the implementation + oracle.  Bounded by a number of tries and by
+    wall-clock time (VERIF_SHRINK_S, default 45 s per reported class): a replay that is not minimal is better than a
+    check that is still shrinking when its caller gives up."""
     lines = list(case['lines'])
+    t_end = time.time() + (seconds if seconds is not None else float(os.environ.get('VERIF_SHRINK_S', '45')))
     # 1. shortest failing prefix (binary search is unsound for non-monotone failures; go linear from the end in chunks)
     n = len(lines)
     tries = 0
     lo = 0
     for cut in range(1, n):
-        if tries >= budget:
+        if tries >= budget or time.time() > t_end:
             break
         cand = lines[:cut]
         tries += 1
@@ -389,7 +392,7 @@ def shrink(case, fails, keep=lambda l: False, budget=150):
             break
     # 2. remove single lines
     i = 0
-    while i < len(lines) and tries < budget:
+    while i < len(lines) and tries < budget and time.time() < t_end:
         if keep(lines[i]):
             i += 1
             continue
